@@ -6,14 +6,8 @@ SECTIONS = ['detect']
 TARGETS = ['theories/Props/C16.vo']
 ORACLE_TARGETS = ['theories/Spec/UriClass.vo']
 PROOF_FILES = ['Proofs/DetectProofs.v', 'Lib/Bytes.v', 'Lib/Reg.v']
-THEOREMS = {
-    'C16_detect_meets_spec': 'forall (uri : bytes) (r : option Lib.Reg.registry), Spec.UriClass.classified uri r <-> Model.Detect.detect uri = r',
-    'C16_detect_eq_classify': 'forall uri : bytes, Model.Detect.detect uri = Spec.UriClass.classify uri',
-    'C16_oracle_sound': 'forall uri : bytes, Spec.UriClass.classified uri (Spec.UriClass.classify uri)',
-    'C16_oracle_complete': 'forall (uri : bytes) (r : option Lib.Reg.registry), Spec.UriClass.classified uri r -> r = Spec.UriClass.classify uri',
-    'C16_registry_names_roundtrip': 'forall r : Lib.Reg.registry, Model.Detect.from_str (Model.Detect.as_str r) = Some r',
-    'C16_registry_names_injective': 'forall r1 r2 : Lib.Reg.registry, Model.Detect.as_str r1 = Model.Detect.as_str r2 -> r1 = r2',
-}
+PINS = C.load_pins('C16')
+THEOREMS = PINS['theorems']
 
 
 def case_term(c):
@@ -22,7 +16,7 @@ def case_term(c):
 
 def run(tier, seed):
     rep = C.Report(PID, tier, seed, 'proof')
-    proofs_ok = C.standard_proof_phase(rep, SECTIONS, TARGETS, 'Props.C16', THEOREMS, PROOF_FILES, ORACLE_TARGETS)
+    proofs_ok = C.standard_proof_phase(rep, SECTIONS, TARGETS, 'Props.C16', THEOREMS, PROOF_FILES, ORACLE_TARGETS, imports=PINS['imports'])
     hok, hlog = C.build_harness()
     if not hok:
         rep.broke('harness does not build against /repo', hlog[-1500:])
